@@ -398,6 +398,13 @@ impl<'a, F: Field> CircuitRunner<'a, F> {
             }
             AluOpKind::BoolCheck => {
                 let a_val = self.get_witness(a)?;
+                // The table constrains `a * (a - 1) = 0`: a non-boolean value conflicts with the circuit.
+                if a_val * (a_val - F::ONE) != F::ZERO {
+                    return Err(CircuitError::InvalidBitValue {
+                        input_witness_id: a,
+                        bit_value: format!("{a_val:?}"),
+                    });
+                }
                 self.set_witness(out, a_val)?;
                 Ok(AluOpRecord {
                     kind,
